@@ -95,6 +95,8 @@ def emit_fn(item, ledger, global_rewrites, probe=False):
         ins.append((o[1], _mk("RE")))
     ins.append((blk[0], _mk("CONTRACT")))
     ins.append((blk[0] + 1, _mk("PROLOGUE")))
+    if item.get("epilogue"):
+        ins.append((blk[1] - 1, _mk("EPILOGUE")))
     for n, lp in enumerate(it["loops"]):
         ins.append((lp["body"][0], _mk("L%d" % n)))
         ins.append((lp["body"][0] + 1, _mk("LB%d" % n)))
@@ -126,6 +128,12 @@ def emit_fn(item, ledger, global_rewrites, probe=False):
     prologue = item.get("prologue", "")
     if probe:
         prologue = " proof { assert(false); } " + prologue
+    if item.get("epilogue"):
+        # proof-only text placed after the body: the body becomes the initialiser of one binding, the proof block follows it,
+        # the binding is the function's value (early returns inside the body do not pass through the proof block)
+        prologue = prologue + " let verif_ret = {"
+        txt = txt.replace(_mk("EPILOGUE"), "}; proof { " + item["epilogue"] + " } verif_ret ")
+        ledger.add(where=where, rule="R9", before="{ <body> }", after="{ let verif_ret = { <body> }; proof { ... } verif_ret }", why="proof-only block after the body")
     txt = txt.replace(_mk("PROLOGUE"), prologue)
     if it["output"] is not None:
         txt = txt.replace(_mk("RS"), "(%s: " % retname).replace(_mk("RE"), ")")
